@@ -503,26 +503,36 @@ pub fn c15(ctx: &mut Ctx) {
             vec![0xFFF0_FFFF, 0x0000_0000, 0x0001_8000, 0x7FFF_0101, 0x8000_FFFE],
             vec![],
         ];
-        ctx.bound("iterator histories", format!("Nack::entries over 5 word lists, Fir::entries and Sli::lost_macroblocks over 0..=5 entries with and without a trailing partial entry: all call sequences of length <= {} over {{next, nth(0), nth(1), nth(2), nth(7), take(2).count()}} x 10 endings, size_hint() after every call", depth));
-        let nl = nack_lists.len() as u64;
-        ctx.run_space("iterator-histories", nl + 12 + 12, move |idx, l| {
+        ctx.bound("iterator histories", format!("Nack::entries over 5 short word lists and lists of 33..376 words, Fir::entries and Sli::lost_macroblocks over 0..=5 entries with and without a trailing partial entry and over 33..300 entries: all call sequences of length <= {} over {{next, nth(0), nth(1), nth(2), nth(7), take(2).count()}} x 10 endings with size_hint() after every call, over those plus {{size_hint(), observe()}} placed by the history, and short ones with other values parsed and iterated between any two calls", depth));
+        // (FCI type, body): the short lists, then lists longer than any batch, scratch or inline capacity an
+        // implementation is likely to choose (33 ... 376 words / entries), where a second value is being iterated while
+        // the first iterator is alive (the histories' decoy pass and their observe() operation)
+        let mut bodies: Vec<(F, Vec<u8>)> = Vec::new();
+        for wl in &nack_lists {
+            bodies.push((F::Nack, wl.iter().flat_map(|w| w.to_be_bytes()).collect()));
+        }
+        for k in 0..12u64 {
+            // 0..=5 entries, with and without a trailing half entry (which the parser tolerates)
+            bodies.push((F::Fir, (0..(k / 2) * 8 + (k % 2) * 4).map(|i| (i as u8).wrapping_mul(37).wrapping_add(1)).collect()));
+        }
+        for k in 0..12u64 {
+            // 0..=5 entries, with and without 1..3 trailing bytes
+            bodies.push((F::Sli, (0..(k / 2) * 4 + (k % 2) * (1 + k / 4)).map(|i| (i as u8).wrapping_mul(91).wrapping_add(3)).collect()));
+        }
+        for &n in &[33u32, 40, 65, 129, 297, 300, 375, 376] {
+            // PIDs 23 apart; masks cycle through empty, one bit, a few bits, full
+            bodies.push((F::Nack, (0..n).flat_map(|i| ((((i * 23 + 5) & 0xFFFF) << 16) | [0u32, 0x0001, 0x8000, 0x0810, 0xFFFF, 0x00FF][(i % 6) as usize]).to_be_bytes()).collect()));
+        }
+        for &n in &[33u32, 65, 129, 300] {
+            bodies.push((F::Fir, (0..n * 8).map(|i| (i as u8).wrapping_mul(37).wrapping_add((i >> 8) as u8)).collect()));
+            bodies.push((F::Sli, (0..n * 4).map(|i| (i as u8).wrapping_mul(91).wrapping_add((i >> 8) as u8)).collect()));
+        }
+        let nb = bodies.len() as u64;
+        ctx.run_space("iterator-histories", nb, move |idx, l| {
             l.evals += 1;
-            let body: Vec<u8>;
-            let which;
-            if idx < nl {
-                body = nack_lists[idx as usize].iter().flat_map(|w| w.to_be_bytes()).collect();
-                which = F::Nack;
-            } else if idx < nl + 12 {
-                // 0..=5 entries, with and without a trailing half entry (which the parser tolerates)
-                let k = idx - nl;
-                body = (0..(k / 2) * 8 + (k % 2) * 4).map(|i| (i as u8).wrapping_mul(37).wrapping_add(1)).collect();
-                which = F::Fir;
-            } else {
-                // 0..=5 entries, with and without 1..3 trailing bytes
-                let k = idx - nl - 12;
-                body = (0..(k / 2) * 4 + (k % 2) * (1 + k / 4)).map(|i| (i as u8).wrapping_mul(91).wrapping_add(3)).collect();
-                which = F::Sli;
-            }
+            let (which, body) = bodies[idx as usize].clone();
+            // the long lists at a smaller depth: the cost of a history grows with the list
+            let depth = if body.len() > 64 { depth.min(3) } else { depth };
             l.sample(|| format!("iterator histories on {} fci {}", which.name(), hex_short(&body)));
             l.nontrivial(crate::engine::run::fp_combine(fp_bytes(&body), 0x17E4 + which as u64));
             let show = || format!("{} fci {}", which.name(), hex_short(&body));
